@@ -271,7 +271,7 @@ pub fn analyze(cfg: &Cfg, spec: &Spec, faults: bool) -> Result<ConfigResult, Mac
             seam_variants.push([cfg.seams[0], r]);
         }
     }
-    let base: BTreeSet<_> = ex.failure_free_terminals().iter().map(|(t, _)| outcome_by_id(&cfg, t)).collect();
+    let base: BTreeSet<_> = ex.driver_fault_free_terminals().iter().map(|(t, _)| outcome_by_id(&cfg, t)).collect();
     let ff_opts = Opts {
         allow_fail: false,
         allow_abort: false,
@@ -295,7 +295,7 @@ pub fn analyze(cfg: &Cfg, spec: &Spec, faults: bool) -> Result<ConfigResult, Mac
             res.viol.push((v, format!("seams:{},{}", sv[0], sv[1]), f.events.clone()));
         }
         if on(spec.mon, 14) || on(spec.mon, 15) {
-            let other: BTreeSet<_> = ex2.failure_free_terminals().iter().map(|(t, _)| outcome_by_id(&c2, t)).collect();
+            let other: BTreeSet<_> = ex2.driver_fault_free_terminals().iter().map(|(t, _)| outcome_by_id(&c2, t)).collect();
             if other != base {
                 let p = if spec.noise && on(spec.mon, 15) { "C15" } else { "C14" };
                 res.viol.push((
@@ -406,7 +406,7 @@ fn declaration_orders(
                 res.viol.push((v, stage.clone(), evs));
             }
             if on(spec.mon, 14) || on(spec.mon, 15) {
-                let other: BTreeSet<_> = ex2.failure_free_terminals().iter().map(|(t, _)| outcome_by_id(&c2, t)).collect();
+                let other: BTreeSet<_> = ex2.driver_fault_free_terminals().iter().map(|(t, _)| outcome_by_id(&c2, t)).collect();
                 if &other != base {
                     let p = if spec.noise && on(spec.mon, 15) { "C15" } else { "C14" };
                     res.viol.push((
